@@ -658,7 +658,8 @@ def stepJson (mode : String) (text : List Char) (obs : String) : String :=
   match parseJson text with
   | none => "BADOP json value"
   | some v =>
-    let indent := if mode == "i" then 2 else 0
+    let indent := if mode == "i" then 2 else if mode.startsWith "n" then (mode.drop 1).toString.toNat?.getD 0 else 0
+    if obs.startsWith "err:" then s!"PROPFAIL the value was not printed: {obs}" else
     let impl := obsText obs
     let impl := if impl.getLast? = some '\n' then impl.dropLast else impl
     let model := encodeJson indent v
@@ -703,6 +704,8 @@ def stepC10 (op obs : String) : String :=
   | "tree" :: ws => stepTree ws obs
   | "ntree" :: ws => stepNTree ws obs
   | "json" :: mode :: _ => stepJson mode (dropWord (dropWord op.toList)) obs
+  | "jsonv" :: mode :: _ :: _ :: _ :: _ =>
+    stepJson mode (dropWord (dropWord (dropWord (dropWord (dropWord op.toList))))) obs
   | _ => "BADOP op"
 
 def main : IO Unit := run stepC10
